@@ -389,6 +389,19 @@ def g5_utf8(rng, n, prefix="g5", big=False):
         emit(base, [[0x61, 0xE9, 0x3042, 0x1F600, 0x61, 0x62], [0x7A, 0x3042, 0x3042, 0x61, 0x10FFFF, 0xE9, 0x3042]], kind, 16, "STR")
     if big:
         emit([[0x10FFFF, 0x61], [0x61]], [[0x10FFFF, 0x61, 0x10FFFF]], 0, 16, "STR")
+    # deterministic large alphabets (character-wise block length 512 / 1024 / 2048): every character c
+    # as a pattern and every pair (c, most frequent character), so that the states outnumber one
+    # block and the last states get their base in a block of which only the low part is used;
+    # short haystacks read the rarest (highest-code) characters in those states
+    for A, kind, nfb in ((257, 0, 16), (300, 1, 1), (520, 2, 2)) + (((1030, 0, 16),) if big else ()):
+        if k >= n:
+            break
+        cs = [0x4E00 + i for i in range(A)]
+        pats = [[c] for c in cs] + [[c, cs[0]] for c in cs] + [[cs[0], cs[0], cs[A - 1 - i]] for i in range(3)] + [[cs[5], cs[A - 1]]]
+        spread = [1, 2, 3, A // 3, A // 2, 255, 256, A - 4, A - 3, A - 2]
+        hs = [[x for i in spread[:5] for x in (cs[i], cs[A - 1])], [x for i in spread[5:] for x in (cs[i], cs[A - 1])],
+              [cs[A - 2], cs[0], cs[A - 1], cs[0], cs[0], cs[A - 3], 0x61, cs[5], cs[A - 1], cs[256]]]
+        emit(pats, hs, kind, nfb, "STR")
     while k < n:
         pool = []
         for cls in WIDTH_CLASSES:
@@ -544,10 +557,10 @@ PLAN = {
     "C03": ((1,), [("g1", 220, 3000), ("g2", 40, 800), ("g3", 4, 24), ("g5", 30, 600), ("g11", 12, 120), ("g4", 12, 100), ("g3s", 1, 6), ("g10", 6, 40)]),
     "C04": ((2,), [("g1", 220, 3000), ("g2", 40, 800), ("g3", 4, 24), ("g5", 30, 600), ("g9", 40, 400), ("g11", 12, 120), ("g4", 12, 100), ("g3s", 1, 6), ("g10", 6, 40)]),
     "C05": ((0,), [("g11", 20, 200), ("g1", 220, 3000), ("g2", 40, 800), ("g3", 4, 24), ("g5", 30, 600), ("g4", 12, 100), ("g3s", 1, 6), ("g10", 6, 40)]),
-    "C06": ((0, 1, 2), [("g7", 160, 2500), ("g1", 120, 1500), ("g5", 20, 300), ("g3", 2, 10), ("g11", 8, 60)]),
+    "C06": ((0, 1, 2), [("g13", 2, 6), ("g7", 160, 2500), ("g1", 120, 1500), ("g5", 20, 300), ("g3", 2, 10), ("g11", 8, 60)]),
     "C07": ((0, 1, 2), [("g11", 20, 200), ("g1", 150, 2000), ("g2", 40, 800), ("g3", 5, 30), ("g5", 40, 800), ("g7", 60, 400), ("g4", 70, 700), ("g3s", 1, 8)]),
     "C08": ((0, 1, 2), [("g5", 90, 2500)]),
-    "C09": ((0, 1, 2), [("g7", 200, 3000), ("g1", 100, 1500), ("g5", 30, 400), ("g3", 2, 10), ("g11", 8, 60)]),
+    "C09": ((0, 1, 2), [("g13", 3, 12), ("g7", 200, 3000), ("g1", 100, 1500), ("g5", 30, 400), ("g3", 2, 10), ("g11", 8, 60)]),
     "C10": ((0, 1, 2), [("g6", 620, 4000), ("g3", 5, 30), ("g3s", 2, 10), ("g4", 14, 140), ("g11", 10, 80), ("g5", 10, 120)]),
     "C11": ((0, 1, 2), [("g3", 7, 40), ("g3s", 3, 16), ("g4", 35, 350)]),
     "C12": ((0,), [("g1", 200, 3000), ("g2", 40, 800), ("g5", 40, 800), ("g11", 10, 100), ("g10", 6, 40)]),
@@ -661,7 +674,38 @@ def g12_threads(rng, n, prefix="g12"):
     return cases
 
 
-GENS = {"g11": g11_wide, "g4": g4_fill, "g3s": g3_sparse, "g1": g1_small, "g2": g2_bytes, "g3": g3_blocks, "g5": g5_utf8, "g6": g6_invalid,
+# ------------------------------------------------------------------------------------------ G13
+def g13_huge(rng, n, prefix="g13"):
+    """pattern sets with more than 2^16 patterns (output positions, pattern ids and vector lengths
+    beyond 16 bits).  Too large for the model's list-based queues (quadratic): ops letter 'N' =
+    implementation + extracted specification only; the round trip is decided by the C09 oracle on
+    the implementation's own observations."""
+    cases = []
+    two = [bytes([a, b]) for a in range(256) for b in range(256)]
+    three = [bytes([1, 2, c]) for c in range(0, 256, 3)] + [bytes([255, 254, c]) for c in range(0, 256, 5)]
+    hays = [bytes([1, 2, 3, 255, 255, 0, 1, 2, 9]), bytes([200, 100, 255, 254, 5, 255, 254]), bytes([255, 255, 255])]
+    k = 0
+    plan = [("bw", 0, "u32", "values", 16), ("bw", 1, "u64", "values", 16), ("bw", 2, "usize", "values", 1),
+            ("bw", 0, "u32", "build", 3), ("cw", 0, "u32", "values", 16), ("cw", 1, "i64", "values", 2)]
+    while k < n:
+        var, kind, vt, entry, nfb = plan[k % len(plan)]
+        if var == "bw":
+            pats = two + three
+            if k >= len(plan):
+                pats = rng.shuffle(pats)
+            hs = hays
+        else:
+            base = [0x61 + i for i in range(26)] + [0x3b1 + i for i in range(24)] + [0x4e00 + i for i in range(200)] + [0x1f600 + i for i in range(20)]
+            pats = [enc([a, b]) for a in base for b in base][:66500] + [enc([0x61, 0x62, c]) for c in base[:40]]
+            hs = [enc([0x61, 0x62, 0x63, 0x4e00, 0x4e01, 0x1f600, 0x3b1]), enc([0x4e05, 0x4e06, 0x1f601, 0x1f602, 0x7a])]
+        lo, hi = VTYPES[vt]
+        pv = [(p, (lo + (j * 2654435761) % (hi - lo + 1)) if entry == "values" else j) for j, p in enumerate(pats)]
+        cases.append(Case(f"{prefix}_{k}", var, kind, nfb, vt, entry, "SRN", pv, hs, bytes([7, 0, 255]), suite="huge"))
+        k += 1
+    return cases
+
+
+GENS = {"g13": g13_huge, "g11": g11_wide, "g4": g4_fill, "g3s": g3_sparse, "g1": g1_small, "g2": g2_bytes, "g3": g3_blocks, "g5": g5_utf8, "g6": g6_invalid,
         "g7": g7_values, "g8": g8_perm, "g9": g9_orders, "g10": g10_failchains, "g12": g12_threads}
 
 
